@@ -17,8 +17,10 @@ import traceback
 VERIF = os.path.dirname(os.path.dirname(os.path.abspath(__file__)))
 KNOWN_FILE = os.path.join(VERIF, 'KNOWN_FINDINGS.txt')
 MAX_UNKNOWN = 6          # stop exploring after this many distinct unknown witnesses
-MIN_BUDGET = 800         # check evaluations per minimisation
-MIN_TOTAL = 12000        # ... and per worker process in one run
+MIN_BUDGET = 300         # check evaluations per minimisation
+MIN_TOTAL = 2500         # ... and per worker process in one run
+MIN_SECONDS = 15.0       # wall time per minimisation
+CHUNK_WITNESS_CAP = 8    # a worker stops a chunk once it holds this many distinct witnesses
 
 # ----------------------------------------------------------------------------- counters
 _COUNT = {'transitions': 0, 'validated': 0}
@@ -115,7 +117,10 @@ def minimise(prop, case, clause, memo, budget=MIN_BUDGET):
     stack = [case]
     visited = set()
     evals = 0
+    t_end = time.time() + MIN_SECONDS
     while stack:
+        if time.time() > t_end:
+            budget = 0
         cur = stack.pop()
         k = case_key(cur)
         if k in visited:
@@ -180,6 +185,9 @@ def _run_chunk(chunk):
             if outcome is not None:
                 o = outcome(case)
                 res['outcomes'][o] = res['outcomes'].get(o, 0) + 1
+            if len(set((c, w) for (c, _x, w, _d, _o) in res['fails'])) >= CHUNK_WITNESS_CAP:
+                res['stopped_early'] = True
+                break
             done = set()
             for f in fails:
                 if f.clause in done:
